@@ -175,3 +175,38 @@ Example C15_tcp_concrete_example :
   = [None; Some 1000%Z] /\
   length (snd (run_ev TcpAnalyzer.tcp_event TcpAnalyzer.tcp_state TcpAnalyzer.tcp_result (tcp_report_step_ev [] 8) [] c15_tcp_trace)) = 4%nat.
 Proof. exact c15_tcp_example. Qed.
+
+(* ---------------------------------------------------------------- HTTP analyzer model (Model/HttpAnalyzer.v);
+   reports = request / response results (Model/HttpGlue.v http_report_step); any pure parsers *)
+From HN Require Import Base.Cache Model.HttpFlow Model.HttpAnalyzer Model.HttpGlue Proofs.HttpInstances Proofs.HttpExamples.
+From HN Require Model.HttpRecog.
+
+Theorem C15_inert_http : forall (Req Resp : Type) (parse_req : bytes -> option Req) (parse_resp : bytes -> option Resp)
+    (st : http_state) (f : bytes),
+  analyzer_endpoints f = None -> http_report_step parse_req parse_resp st f = (st, []).
+Proof. exact @http_inert. Qed.
+Check C15_inert_http : forall (Req Resp : Type) (parse_req : bytes -> option Req) (parse_resp : bytes -> option Resp)
+    (st : http_state) (f : bytes),
+  analyzer_endpoints f = None -> http_report_step parse_req parse_resp st f = (st, []).
+Print Assumptions C15_inert_http.
+
+Theorem C15_commutes_http_concrete : forall (Req Resp : Type) (parse_req : bytes -> option Req) (parse_resp : bytes -> option Resp)
+    (c : cfg_src), cfg_wf c = true ->
+  forall (tau : list bytes) (st : http_state),
+    FilterGlue.run (with_filter (build c) (http_report_step parse_req parse_resp)) st tau
+    = FilterGlue.run (http_report_step parse_req parse_resp) st (admitted_subtrace c tau).
+Proof. exact @commutes_http_concrete. Qed.
+Check C15_commutes_http_concrete : forall (Req Resp : Type) (parse_req : bytes -> option Req) (parse_resp : bytes -> option Resp)
+    (c : cfg_src), cfg_wf c = true ->
+  forall (tau : list bytes) (st : http_state),
+    FilterGlue.run (with_filter (build c) (http_report_step parse_req parse_resp)) st tau
+    = FilterGlue.run (http_report_step parse_req parse_resp) st (admitted_subtrace c tau).
+Print Assumptions C15_commutes_http_concrete.
+
+(* a destination-port-80-only filter: the requests pass, A's response (towards port 40000) is not admitted *)
+Example C15_http_concrete_example :
+  cfg_wf only_dst_80 = true /\
+  admitted_subtrace only_dst_80 (junk :: http_trace) = [hA_syn; hB_syn; hA_r1; hB_req; hA_r2] /\
+  map hkind (snd (FilterGlue.run (http_report_step HttpRecog.recog_req HttpRecog.recog_resp) (cache_new 8) (junk :: http_trace))) = [1; 1; 2] /\
+  map hkind (snd (FilterGlue.run (with_filter (build only_dst_80) (http_report_step HttpRecog.recog_req HttpRecog.recog_resp)) (cache_new 8) (junk :: http_trace))) = [1; 1].
+Proof. exact http_c15_example. Qed.
